@@ -131,7 +131,7 @@ func TestC04(t *testing.T) {
 	h := hx.Begin(t, "C04", "pressure")
 	cfgs := sim.AllConfigs()
 	rapid.Check(t, func(rt *rapid.T) {
-		p := drawProfile(rt, []gen.Profile{gen.PRESSURE, gen.PRESSURELOAD}, []int{50, 50})
+		p := drawProfile(rt, []gen.Profile{gen.PRESSURE, gen.PRESSURELOAD, gen.PRESSUREMEM}, []int{40, 35, 25})
 		c := gen.Program(rt, p)
 		r, ok := refRun(c)
 		if !ok {
